@@ -31,6 +31,18 @@ Theorem C12_poisoned_is_inert :
     exists ended, api_step ctl r op = (mkRw (rw_stream r) true ended, RPanicPoisoned).
 Proof. exact @poisoned_is_inert. Qed.
 
+(* without graceful bail-out, what was emitted before a failure is a prefix of the bytes written (hence of what the
+   complete run emits, by C01) -- for observer controllers *)
+From LolProofs Require Import Tiling TableFacts.
+From LolProps Require Import C01.
+Theorem C12_prefix_before_failure :
+  forall (C : Type) (ctl : controller C), observer ctl ->
+  forall cfg c0 chunks data r res r' e,
+    api_run ctl (new_rewriter ctl cfg c0) (map Write chunks) = (r, res) -> Forall (fun x => x = ROk) res ->
+    api_step ctl r (Write data) = (r', RErr e) -> should_bail_out_for (rw_stream r) e = false ->
+    exists post, sink_bytes (rw_sink r') ++ post = List.concat chunks ++ data.
+Proof. exact C01_prefix_on_failure. Qed.
+
 (* non-vacuity: a concrete run that ends successfully *)
 From LolModel Require Import Policy.
 Example C12_nonvacuous :
@@ -44,3 +56,4 @@ Print Assumptions C12_sink_protocol.
 Print Assumptions C12_finalizing_chunk_iff_successful_end.
 Print Assumptions C12_error_poisons.
 Print Assumptions C12_poisoned_is_inert.
+Print Assumptions C12_prefix_before_failure.
